@@ -11,7 +11,9 @@ use async_trait::async_trait;
 use bytes::Bytes;
 use futures::{Sink, SinkExt};
 use selium_protocol::utils::encode_message_batch;
-use selium_protocol::{BiStream, Frame, MessagePayload, PublisherPayload, TopicName};
+use selium_protocol::{
+    BiStream, Frame, MessagePayload, PublisherPayload, TopicName, MAX_MESSAGE_SIZE,
+};
 use selium_std::errors::{CodecError, Result, SeliumError};
 use selium_std::traits::codec::MessageEncoder;
 use selium_std::traits::compression::Compress;
@@ -246,20 +248,34 @@ where
     }
 
     fn send_batch(&mut self, now: Instant) -> Result<()> {
-        let batch = self.batch.as_mut().unwrap();
+        let messages = self.batch.as_mut().unwrap().drain();
 
-        let messages = batch.drain();
-        let mut bytes = encode_message_batch(messages);
+        self.send_messages(messages)?;
+        self.batch.as_mut().unwrap().update_last_run(now);
+
+        Ok(())
+    }
+
+    // Sends the messages as one batch frame. Messages that are each within the frame size limit
+    // can add up to a batch that is not: such a batch is sent as several smaller batches rather
+    // than being dropped as a whole.
+    fn send_messages(&mut self, mut messages: Vec<Bytes>) -> Result<()> {
+        let mut bytes = encode_message_batch(messages.clone());
 
         if let Some(comp) = &self.compression {
             bytes = comp.compress(bytes).map_err(CodecError::CompressFailure)?;
         }
 
-        let frame = Frame::BatchMessage(bytes);
-        self.stream.start_send_unpin(frame)?;
-        batch.update_last_run(now);
+        if bytes.len() as u64 > MAX_MESSAGE_SIZE && messages.len() > 1 {
+            let tail = messages.split_off(messages.len() / 2);
+            let head = self.send_messages(messages);
+            let tail = self.send_messages(tail);
 
-        Ok(())
+            return head.and(tail);
+        }
+
+        let frame = Frame::BatchMessage(bytes);
+        self.stream.start_send_unpin(frame)
     }
 
     fn flush_batch(&mut self) -> Result<()> {
